@@ -36,7 +36,9 @@ for f_ in soaks:
     elif f_.startswith("only="):
         head, f_ = f_.split(":", 1)
         only = head[5:].split(",")
-    for ln in open(f_):
+    import gzip
+
+    for ln in (gzip.open(f_, "rt") if f_.endswith(".gz") else open(f_)):
         r = json.loads(ln)
         if only and only == ["C07"] and gen_defs.excluded_by(
                 gen_defs.load_workload(r["wid"])) is None:
